@@ -563,6 +563,9 @@ fn run(s: &Scn, st: &mut Stats) -> Verdict {
         Err(p) => return Verdict::Harness(format!("honest prover panicked at {} (C01's subject)", p.site())),
     };
     st.events += plog.len() as u64;
+    if std::env::var("ZKSIM_DUMP_RUN").is_ok() {
+        eprintln!("PROOF-DIGEST {:016x} len {}", crate::core::prng::digest(&proof), proof.len());
+    }
     let lay = layout(&plog);
     let stmts: Vec<Statement> =
         b.witnesses.iter().map(|w| pipeline::statement(&vk, b.spec.k, w, b.nb_committed)).collect();
